@@ -329,7 +329,13 @@ func requestCTMenu() *strMenu {
 		"APPLICATION/JSON", "Application/Xml", "TEXT/PLAIN", " application/json ",
 		"application/vnd.api+json", "application/vnd.api+xml", "application/vnd.api+gob", "application/vnd.api+html", "application/vnd.api+txt",
 		"application/vnd.api", "image/png", "application/x-www-form-urlencoded", "multipart/form-data; boundary=x", "application/octet-stream", "text/xml", "text/csv", "*/*",
-		"bad type/x y", "a/b;;", "/", ";", "garbage", "application/json, application/xml", "application/json; charset", "application/foo")
+		"bad type/x y", "a/b;;", "/", ";", "garbage", "application/json, application/xml", "application/json; charset", "application/foo",
+		// unsupported media types with broken syntax: the name before the first ';' decides -> 415
+		"application/yaml", "application/yaml; charset", "application/msgpack; v=1; =", "multipart/form-data; boundary=a; boundary=b",
+		"application/", "application/x/yaml", ";;", "application/vnd.api;;", "image/png; q", "application/yaml, application/json", "text/csv; charset=\"utf-8",
+		// supported names with broken parameters: that format or 415, never another format
+		"application/xml; charset", "application/gob;;", "text/plain; =x", "text/html; a=1; a=2", "APPLICATION/XML; charset", "application/json;",
+		"application/vnd.api+json; charset", "application/vnd.api+xml;;", " ")
 	spaces := [][2]string{{"", ""}, {" ", ""}, {"", " "}, {"\t", "\t"}}
 	params := []string{"", ";charset=utf-8", "; charset=UTF-8", `; charset="utf-8"`, "; a=b; c=d", ";", "; charset", ";;"}
 	for _, s := range supported {
@@ -347,6 +353,17 @@ func requestCTMenu() *strMenu {
 		}
 		m.add(false, sfx, "application/ld"+sfx, "text/x"+sfx)
 	}
+	// thorough: every base type x every broken tail, and structural breakage of the name
+	tails := []string{"; charset", ";;", "; =", "; v=1; =", "; a=1; a=2", "; charset=", "; charset=\"utf-8", " ;", "; q", "; charset=utf-8;;", ";=;"}
+	bases := append([]string{"application/yaml", "application/msgpack", "application/vnd.api", "multipart/form-data", "image/png", "text/csv",
+		"application/x-www-form-urlencoded", "application/octet-stream", "text/xml", "application/vnd.api+json", "application/vnd.api+xml", "application/vnd.api+gob"}, supported...)
+	for _, b := range bases {
+		for _, t := range tails {
+			m.add(false, b+t, strings.ToUpper(b)+t)
+		}
+		m.add(false, b+"/", b+"/x", b+", application/json", "application/json, "+b, b+" application/json", "/"+b)
+	}
+	m.add(false, "application//json", "application/json/", "; charset=utf-8", "=;", ",", ";;;", "/;", "application/yaml,application/json; charset", "\t")
 	m.add(false, "application/jsonx", "xapplication/json", "application/json+xml", "application/xml+json", "text/json", "json", "xml", "application/json/extra",
 		"application/json xml", "application/", "/json", "=", " ", "application/json; =x", "application/x-gob", "application/x-json", "text/x-plain", "text/*", "application/*",
 		strings.Repeat("a", 300)+"/"+strings.Repeat("b", 300), "application/json%", "%s/%d")
